@@ -62,6 +62,18 @@ def dTaBwCol (nt ix0 : Nat) : List Nat := tile (arange nt (2 * nt)) ix0
 def dTaBwCount (nt ix0 : Nat) : Nat := nt * ix0
 
 
+
+/-! ## double-ended matching sections: splice coefficients of EQ1, EQ2, EQ3 (`construct_submatrices_matching_sections`)
+per splice, `ix0` = index of the first location at or behind the splice on the WHOLE fibre; `hix`, `tix` = matched location indices,
+`ix3` = matched locations outside the reference sections; rows are pair-major (`np.repeat(·, nt)`), columns `tile(arange(nt))` -/
+def mEq1Data (hix tix : List Nat) (nt ix0 : Nat) : List Rat := repeatEach (addR (negR (geInd hix ix0)) (geInd tix ix0)) nt
+def mEq2Data (hix tix : List Nat) (nt ix0 : Nat) : List Rat := repeatEach (addR (negR (ltInd hix ix0)) (ltInd tix ix0)) nt
+def mEq3FData (ix3 : List Nat) (nt ix0 : Nat) : List Rat := repeatEach (halfR (geInd ix3 ix0)) nt
+def mEq3BData (ix3 : List Nat) (nt ix0 : Nat) : List Rat := repeatEach (halfR (negR (ltInd ix3 ix0))) nt
+def mEqRow (nt n : Nat) : List Nat := arange 0 (nt * n)
+def mEqFCol (nt n : Nat) : List Nat := tile (arange 0 nt) n
+def mEqBCol (nt n : Nat) : List Nat := tile (arange nt (2 * nt)) n
+
 /-! ## constant data vectors `(count, value)`, shapes `(rows, columns)`, raveling order of the γ coefficients, and the splice rule -/
 def sCData (nt nx : Nat) : Nat × Int := (nt * nx, -1)
 def sTaData (nt nx ix0 : Nat) : Nat × Int := (nt * (nx - ix0), -1)
